@@ -214,6 +214,8 @@ def run(ctx):
     arg_rule(ctx)
     eq_rule(ctx)
     out_of_place(ctx)
+    inverse_fallbacks(ctx)
+    rep.floor('CX-12', 3)
     rep.floor('CX-11', 40)
     rep.floor('CX-10', 2)
     rep.floor('CX-9', 1)
@@ -596,6 +598,91 @@ def sign_models(pc, x, y):
             if all(ev(c, sx, sy) for c in pc):
                 out.add((sx, sy))
     return out
+
+
+def inverse_fallbacks(ctx):
+    """CX-12: the piecewise bodies of the asin / acos / atan fallbacks (the other inverse functions are compositions of these, rule CX-4).
+    Each body is interpreted once with (x, y) symbolic; every path yields a region (comparisons of closed-form terms with the crossover
+    constants) and a pair of closed forms.  Identity test: on a grid of points covering the four quadrants, both axes (off the branch cuts),
+    magnitudes 1e-8 .. 1e8 and both sides of every crossover, the region each point falls into is selected by evaluating the path conditions
+    and the pair is compared with the principal value in 60-digit arithmetic.  The closed forms are exact identities, so agreement is demanded
+    to 1e-30 relative - a wrong sign, a swapped branch, a changed crossover formula or a dropped term cannot survive that."""
+    import mpmath as mp
+    rep = ctx.rep
+    mp.mp.dps = 60
+    mags = ['1e-8', '1e-3', '0.3', '0.6', '0.7', '0.9', '1', '1.1', '1.4', '1.6', '2', '10', '1e3', '1e8']
+    axis = [mp.mpf(0)] + [mp.mpf(m) for m in mags] + [-mp.mpf(m) for m in mags]
+    table = {
+        'a_complex_asin_': (mp.asin, lambda xv, yv: yv == 0 and abs(xv) > 1),
+        'a_complex_acos_': (mp.acos, lambda xv, yv: yv == 0 and abs(xv) > 1),
+        'a_complex_atan_': (mp.atan, lambda xv, yv: xv == 0 and abs(yv) >= 1),
+    }
+    mods = [{'atan2': mp.atan2, 'Abs': abs, 'log1p': mp.log1p, 'hypot': mp.hypot}, 'mpmath']
+    for name, (exact, on_cut) in table.items():
+        try:
+            fn, dom, lv = run_inplace(ctx, 'complex', name, 'none', opaque=set(), inline=lambda n: True)
+        except Unsupported as e:
+            rep.unk('CX-12', name, str(e))
+            continue
+        if fn is None:
+            rep.unk('CX-12', name, 'anchor vanished')
+            continue
+        loc = fn.loc(fn.entry.instrs[0])
+        try:
+            compiled = []
+            for lf in lv:
+                gr, gi = out(lf)
+                conds = []
+                for c in lf.pc:
+                    atoms_ = [c] if isinstance(c, alg.Cond) else None
+                    if atoms_ is None:
+                        raise Unsupported('path condition %r' % (c,))
+                    d = sp.sympify(c.a) - sp.sympify(c.b)
+                    conds.append((sp.lambdify((X, Y), d, modules=mods), c.rel()))
+                compiled.append((conds, sp.lambdify((X, Y), sp.sympify(gr), modules=mods), sp.lambdify((X, Y), sp.sympify(gi), modules=mods), lf))
+            probs, n, hitset = [], 0, set()
+            for xv in axis:
+                for yv in axis:
+                    if on_cut(xv, yv):
+                        continue
+                    hit = []
+                    for k, (conds, fr, fi, lf) in enumerate(compiled):
+                        ok = True
+                        for f, rel in conds:
+                            try:
+                                dv = f(xv, yv)
+                            except ZeroDivisionError:
+                                ok = False
+                                break
+                            dv = dv.real if isinstance(dv, mp.mpc) else dv
+                            if not {'<': dv < 0, '<=': dv <= 0, '>': dv > 0, '>=': dv >= 0, '==': dv == 0, '!=': dv != 0}[rel]:
+                                ok = False
+                                break
+                        if ok:
+                            hit.append(k)
+                    if len(hit) != 1:
+                        probs.append('%d paths cover z = (%s, %s)' % (len(hit), mp.nstr(xv, 4), mp.nstr(yv, 4)))
+                        continue
+                    hitset.add(hit[0])
+                    conds, fr, fi, lf = compiled[hit[0]]
+                    n += 1
+                    try:
+                        g = mp.mpc(fr(xv, yv), fi(xv, yv))
+                    except Exception as e:
+                        probs.append('the path for z = (%s, %s) cannot be evaluated (%s)' % (mp.nstr(xv, 4), mp.nstr(yv, 4), type(e).__name__))
+                        continue
+                    w = exact(mp.mpc(xv, yv))
+                    tol = mp.mpf(10) ** -30
+                    if abs(g.real - w.real) > tol * max(abs(w.real), abs(w), mp.mpf(10) ** -40) or abs(g.imag - w.imag) > tol * max(abs(w.imag), abs(w), mp.mpf(10) ** -40):
+                        probs.append('at z = (%s, %s) the path gives (%s, %s), the principal value is (%s, %s)' % (
+                            mp.nstr(xv, 4), mp.nstr(yv, 4), mp.nstr(g.real, 10), mp.nstr(g.imag, 10), mp.nstr(w.real, 10), mp.nstr(w.imag, 10)))
+            if probs:
+                rep.bad('CX-12', name, '; '.join(probs[:2])[:500], loc=loc, key='%s: piecewise body' % name)
+            else:
+                rep.ok('CX-12', name, 'the closed forms of %d of the %d paths, selected by their own conditions, equal the principal value at all %d grid points (1e-30 relative)' % (
+                    len(hitset), len(lv), n), loc=loc, sample={'fn': name, 'paths': len(lv), 'paths hit': len(hitset), 'points': n})
+        except Unsupported as e:
+            rep.unk('CX-12', name, str(e), loc=loc)
 
 
 def out_of_place(ctx):
